@@ -661,7 +661,7 @@ static int Memory_init(PyObject* op, PyObject* args, PyObject* kwds)
     self->spec_misses = 0;
     self->last_run_op_count = 0;
     self->last_run_paused_seconds = 0.0;
-    self->last_run_last_ops = NULL;
+    Py_CLEAR(self->last_run_last_ops); /* a repeated __init__ drops the list a raised run left behind */
     return 0;
 }
 
